@@ -8,6 +8,23 @@ import sizeexpr as sx
 from sizeexpr import V, C
 
 
+def _yields_old_len(ctx, fb, depth=0):
+    """the closure / accessor does nothing but return the length of the old table of the record it is given (directly or through another such accessor)"""
+    cc = [x for x in ctx.calls(fb) if not fb.is_cleanup(x.loc.bb)]
+    if len(cc) != 1 or cc[0].dest is None or not (cc[0].dest["local"] == 0 or cc[0].dest["local"] in fb.ret_locals()) or fb.loops():
+        return False
+    c = cc[0]
+    if c.tname == HBT + "len" and ctx.role(fb, c.arg_path(0)) == OLD:
+        return True
+    lc = c.local_callee()
+    if lc is not None and lc.kind != "Closure" and depth < 3 and len(c.args) == 1:
+        p = c.arg_path(0)
+        # handed the record itself (the parameter, re-borrowed)
+        if p is not None and p.strip_refs().root in range(1, fb.arg_count + 1) and not p.fields():
+            return _yields_old_len(ctx, lc, depth + 1)
+    return False
+
+
 class PathExec:
     """Enumerate loop-free paths from the entry of `body` to a target block, evaluating size arithmetic symbolically."""
 
@@ -130,14 +147,13 @@ class PathExec:
                     from_left = True
             elif is_self_left(ctx, b, c.arg_path(0)):
                 from_left = True
-            cbs = c.closure_args()
+            cbs = c.closure_args() + c.fn_value_args()        # `|t| t.table.len()` or a named accessor `OldTable::len`
             if from_left and cbs and args[1] == C(0):
                 cb = cbs[0]
-                cc = [x for x in ctx.calls(cb) if not cb.is_cleanup(x.loc.bb)]
-                if len(cc) == 1 and cc[0].tname == HBT + "len" and ctx.role(cb, cc[0].arg_path(0)) == OLD and cc[0].dest["local"] == 0:
+                if _yields_old_len(ctx, cb):
                     return V("oz" + ver)
             return ("unknown", "map_or")
-        if name == OPT + "map" and len(c.args) == 2 and c.closure_args():
+        if name == OPT + "map" and len(c.args) == 2 and (c.closure_args() or c.fn_value_args()):
             # LEFT.as_ref().map(|t| t.table.len()): Some(o) exactly when an old table is pending
             src = b.source_def(c.args[0])
             from_left = is_self_left(ctx, b, c.arg_path(0))
@@ -145,9 +161,8 @@ class PathExec:
                 sc = ctx.call_at(b, src[0].bb)
                 if sc.name in (OPT + "as_ref", OPT + "as_mut") and is_self_left(ctx, b, sc.arg_path(0)):
                     from_left = True
-            cb = c.closure_args()[0]
-            cc = [x for x in ctx.calls(cb) if not cb.is_cleanup(x.loc.bb)]
-            if from_left and len(cc) == 1 and cc[0].tname == HBT + "len" and ctx.role(cb, cc[0].arg_path(0)) == OLD and cc[0].dest["local"] == 0:
+            cb = (c.closure_args() + c.fn_value_args())[0]
+            if from_left and _yields_old_len(ctx, cb):
                 return ("optleft", V("o" + ver))
         if name in (OPT + "and_then", OPT + "map") and len(args) == 2 and args[0][0] == "opt" and args[1][0] == "closure":
             cb = ctx.facts.by_dpath.get(args[1][1])
@@ -438,6 +453,27 @@ def rule_s_grow(ctx):
         return R
     n = 0
     for b, loc, c in replacer_sites(ctx):
+        # the installing step split off into a helper that is handed the new table (`fn split(&mut self, new_main: RawTable, ..)`): the table
+        # is sized and allocated by the callers, and each of them carries the obligation at its call of the helper
+        newp = None
+        if c is not None and c.name == "core::mem::replace" and len(c.args) > 1:
+            newp = c.arg_path(1)
+        elif c is None:
+            st_ = b.stmts(loc.bb)[loc.i] if loc.i < len(b.stmts(loc.bb)) else None
+            if st_ is not None and st_["rv"]["k"] == "use" and st_["rv"]["op"]["k"] in ("copy", "move"):
+                newp = b.op_path(st_["rv"]["op"])
+        own_alloc = any(x.tname in (HBT + "with_capacity", HBT + "try_with_capacity") for x in ctx.calls(b) if not b.is_cleanup(x.loc.bb))
+        if newp is not None and 2 <= newp.root <= b.arg_count and not newp.fields() and not own_alloc and b.kind != "Closure":
+            callers = 0
+            for b2 in ctx.facts.bodies.values():
+                for c2 in ctx.calls(b2):
+                    lc2 = c2.local_callee()
+                    if lc2 is not None and lc2.path == b.path and not b2.is_cleanup(c2.loc.bb):
+                        callers += 1
+                        n += _grow_body_check(ctx, R, b2, c2.loc, Rc)
+            R.inst(fn=b.path, site=b.where(loc), verdict="installs a table handed in by its %d caller(s): sized there" % callers)
+            if callers:
+                continue
         n += _grow_body_check(ctx, R, b, loc, Rc)
     if n < 1:
         R.anchor("alloc-sites", "expected an allocation site in the replacer, found %d" % n)
